@@ -12,7 +12,7 @@ sys.path.insert(0, HERE)
 import extract  # noqa: E402
 
 REPO = os.environ.get('VERIF_REPO', '/repo')
-TRUST_RE = re.compile(r'\b(assume_specification|external_body|external_type_specification|uninterp\s+spec\s+fn|axiom\s+fn|admit\s*\(|assume\s*\()')
+TRUST_RE = re.compile(r'\b(assume_specification|external_body|external_type_specification|uninterp\s+spec\s+fn|axiom\s+fn|pub\s+trait\s+(?:Read|Write)\b|admit\s*\(|assume\s*\()')
 
 
 def generate(tmpl_name, repo=None):
